@@ -148,37 +148,72 @@ Example startup_example :
   List.length (expected_policies [c]) = 6.
 Proof. vm_compute. split; reflexivity. Qed.
 
-(** ---- which IKE_SA handles an ACQUIRE (after fix 960d99a: same connection, not merely same peer) *)
+(** ---- which IKE_SA handles an ACQUIRE (after fix 960d99a: same connection, not merely same peer; after fix
+    1753c24: the first one of the connection that is neither being replaced nor being closed) *)
+Definition sa_fits (my peer : ip) (x : ip * ip * Z) : bool :=
+  let '(m, p, st) := x in ike_sa_match (ip_eqb m my) (ip_eqb p peer) (ike_sa_usable st).
+
+Lemma ike_sa_match_fits my peer m p st :
+  ike_sa_match (ip_eqb m my) (ip_eqb p peer) (ike_sa_usable st) = sa_fits my peer (m, p, st).
+Proof. reflexivity. Qed.
+
+Lemma sa_fits_true my peer m p st :
+  sa_fits my peer (m, p, st) = true <-> ip_eqb m my = true /\ ip_eqb p peer = true /\ ike_sa_usable st = true.
+Proof.
+  unfold sa_fits, ike_sa_match.
+  destruct (ip_eqb m my), (ip_eqb p peer), (ike_sa_usable st); cbn; intuition congruence.
+Qed.
+
 Lemma find_ike_sa_spec table my peer k :
   match find_ike_sa table my peer k with
-  | Some n => exists m p, nth_error table (n - k) = Some (m, p) /\ k <= n /\ ip_eqb m my = true /\ ip_eqb p peer = true
-  | None => forall m p, In (m, p) table -> ip_eqb m my && ip_eqb p peer = false
+  | Some n => exists x, nth_error table (n - k) = Some x /\ k <= n /\ sa_fits my peer x = true /\
+                        forall j y, j < n - k -> nth_error table j = Some y -> sa_fits my peer y = false
+  | None => forall x, In x table -> sa_fits my peer x = false
   end.
 Proof.
-  revert k; induction table as [|[m p] rest IH]; intros k; cbn [find_ike_sa]; [intros ? ? []|].
-  unfold ike_sa_match. destruct (ip_eqb m my && ip_eqb p peer) eqn:E.
-  - apply andb_true_iff in E as [E1 E2]. exists m, p. rewrite Nat.sub_diag. repeat split; auto.
+  revert k; induction table as [|[[m p] st] rest IH]; intros k; cbn [find_ike_sa]; [intros ? []|].
+  rewrite ike_sa_match_fits. destruct (sa_fits my peer (m, p, st)) eqn:E.
+  - exists (m, p, st). rewrite Nat.sub_diag. repeat split; auto. intros j y Hj. lia.
   - specialize (IH (S k)). destruct (find_ike_sa rest my peer (S k)) as [n|].
-    + destruct IH as (m' & p' & Hn & Hk & H1 & H2). exists m', p'. repeat split; auto; [|lia].
-      replace (n - k) with (S (n - S k)) by lia. exact Hn.
-    + intros m' p' [H|H]; [inversion H; subst; exact E|now apply IH].
+    + destruct IH as (x & Hn & Hk & H1 & H2). exists x. repeat split; auto; [|lia|].
+      * replace (n - k) with (S (n - S k)) by lia. exact Hn.
+      * intros j y Hj Hy. destruct j as [|j]; cbn in Hy.
+        -- inversion Hy; subst. exact E.
+        -- apply (H2 j y); [lia|exact Hy].
+    + intros x [H|H]; [subst; exact E|now apply IH].
 Qed.
 
 Theorem acquire_ike_sa table my peer :
   match pick_ike_sa table my peer with
-  | PickExisting n => exists m p, nth_error table n = Some (m, p) /\ ip_eqb m my = true /\ ip_eqb p peer = true
-  | PickNewInitiator m p => m = my /\ p = peer /\
-                            forall m' p', In (m', p') table -> ip_eqb m' my && ip_eqb p' peer = false
+  | PickExisting n => exists m p st, nth_error table n = Some (m, p, st) /\ ip_eqb m my = true /\ ip_eqb p peer = true /\
+                                     ike_sa_usable st = true /\
+                                     forall j y, j < n -> nth_error table j = Some y -> sa_fits my peer y = false
+  | PickNewInitiator m p => m = my /\ p = peer /\ forall x, In x table -> sa_fits my peer x = false
   end.
 Proof.
   unfold pick_ike_sa. pose proof (find_ike_sa_spec table my peer 0) as H.
   destruct (find_ike_sa table my peer 0) as [n|].
-  - destruct H as (m & p & Hn & _ & H1 & H2). rewrite Nat.sub_0_r in Hn. now exists m, p.
+  - destruct H as ([[m p] st] & Hn & _ & H1 & H2). rewrite Nat.sub_0_r in Hn, H2. exists m, p, st.
+    apply sa_fits_true in H1 as (H1 & H1' & H3). repeat split; auto.
   - auto.
 Qed.
 
-(** the multi-homed case of finding F18: an IKE_SA with the same peer but another local address is NOT re-used *)
+(** which states are passed over: exactly REKEYED, DEL_AFTER_REKEY_IKE_SA_REQ_SENT, DEL_IKE_SA_REQ_SENT, DELETED *)
+Lemma usable_states st :
+  ike_sa_usable st = false <-> (st = 20 \/ st = 16 \/ st = 15 \/ st = 21)%Z.
+Proof.
+  unfold ike_sa_usable. rewrite negb_false_iff, !orb_true_iff, !Z.eqb_eq. tauto.
+Qed.
+
+(** the multi-homed case of finding F18: an IKE_SA with the same peer but another local address is NOT re-used;
+    finding F22: the old IKE_SA of a rekey (REKEYED) is passed over, its ESTABLISHED successor is used *)
 Example multihomed_not_reused :
   let a1 := mkip 4 [10; 0; 0; 1]%N in let a2 := mkip 4 [10; 0; 0; 2]%N in let peer := mkip 4 [10; 0; 0; 9]%N in
-  pick_ike_sa [(a1, peer)] a2 peer = PickNewInitiator a2 peer /\ pick_ike_sa [(a1, peer)] a1 peer = PickExisting 0.
+  pick_ike_sa [(a1, peer, 10%Z)] a2 peer = PickNewInitiator a2 peer /\ pick_ike_sa [(a1, peer, 10%Z)] a1 peer = PickExisting 0.
+Proof. vm_compute. split; reflexivity. Qed.
+
+Example rekeyed_passed_over :
+  let a1 := mkip 4 [10; 0; 0; 1]%N in let peer := mkip 4 [10; 0; 0; 9]%N in
+  pick_ike_sa [(a1, peer, 20%Z); (a1, peer, 10%Z)] a1 peer = PickExisting 1 /\
+  pick_ike_sa [(a1, peer, 15%Z)] a1 peer = PickNewInitiator a1 peer.
 Proof. vm_compute. split; reflexivity. Qed.
